@@ -32,6 +32,19 @@ def run_config(cfg):
 
 def run(pid, tier, seed, cfgs, assumptions, only=None, extra=None):
     rep = report.Report(pid, tier, seed)
+    run_into(rep, pid, tier, seed, cfgs, only)
+    if extra is not None:
+        extra(rep)
+    rep.assume('workers behave as WorkerSpec (established for the real Worker '
+               'code by the L1 harness of C03)',
+               'event-level atomicity of the parent handlers (threads=False); '
+               'thread-level interleavings are explored by the L3 harnesses '
+               '(C07, C08)', *assumptions)
+    return rep.finish()
+
+
+def run_into(rep, pid, tier, seed, cfgs, only=None):
+    """Explore the given L2 configurations and record them in ``rep``."""
     cfgs = [dict(c) for c in cfgs if not only or c['name'] in only]
     for c in cfgs:
         # wall-clock guard per configuration (a cap is reported as a cap)
@@ -69,14 +82,6 @@ def run(pid, tier, seed, cfgs, assumptions, only=None, extra=None):
         rep.part('worker-traces-replayed-on-real-Worker', validated=n,
                  evaluations=n, outcomes=['agree'], samples=[list(wt[-1])],
                  distinct_traces=len(wt))
-    if extra is not None:
-        extra(rep)
-    rep.assume('workers behave as WorkerSpec (established for the real Worker '
-               'code by the L1 harness of C03)',
-               'event-level atomicity of the parent handlers (threads=False); '
-               'thread-level interleavings are explored by the L3 harnesses '
-               '(C07, C08)', *assumptions)
-    return rep.finish()
 
 
 def replay(pid, rp, all_cfgs):
